@@ -70,7 +70,7 @@ def gen(r, tier, i):
     runs = [r.choice([0.5, 1, 1.5, 2.5, 3, 4]) for _ in range(r.randint(2, 4))] if r.random() < 0.35 else None
     return {'events': events, 'share': share, 'ts': r.choice([0.5, 1, 2]), 'run': r.choice([4, 6, 8]), 'runs': runs,
             'again': r.random() < 0.3,
-            'entry': r.choice(['direct', 'add_timeline', 'add_timeline_paths']), 'other': r.random() < 0.4}
+            'entry': r.choice(['direct', 'add_timeline', 'add_timeline_paths', 'experiment']), 'other': r.random() < 0.4}
 
 
 def model(events, ts, run, driven):
@@ -158,6 +158,8 @@ def run(spec):
     if spec['entry'] == 'direct':
         processes['timeline'] = TimelineProcess({'timeline': tl, 'time_step': ts})
         topology['timeline'] = dict({'global': ('global',)}, **where)
+    elif spec['entry'] == 'experiment':
+        pass          # the experiment helper adds the timeline process itself (below)
     else:
         cfg = {'timeline': tl, 'time_step': ts}
         if spec['entry'] == 'add_timeline_paths':
@@ -174,20 +176,38 @@ def run(spec):
         for k in where[var[0]] + tuple(var[1:-1]):
             node = node.setdefault(k, {})
         node[var[-1]] = 0
+    run_override = None
     try:
-        e = Engine(processes=processes, steps=steps, topology=topology, initial_state=init,
-                   display_info=False)
-        for iv in spec.get('runs') or [spec['run']]:
-            e.update(iv)
+        if spec['entry'] == 'experiment':
+            # through the experiment helpers: the timeline is a setting, and the run lasts until the latest event
+            from vivarium.core.composer import Composite
+            from vivarium.core.composition import composite_in_experiment
+            settings = {'timeline': {'timeline': tl, 'time_step': ts}, 'display_info': False}
+            e = composite_in_experiment(Composite({'processes': processes, 'steps': steps, 'topology': topology}),
+                                        settings, initial_state=init)
+            run_override = settings['total_time']
+            e.update(run_override)
+        else:
+            e = Engine(processes=processes, steps=steps, topology=topology, initial_state=init,
+                       display_info=False)
+            for iv in spec.get('runs') or [spec['run']]:
+                e.update(iv)
         data = e.emitter.get_data()
     except Exception as ex:
         import traceback
         V.check('trajectory', False, ('engine raised', type(ex).__name__, str(ex)[:200], traceback.format_exc()[-500:]))
         data = None
-    exp = model(events, ts, spec.get('runs') or spec['run'], driven)
+    if spec['entry'] == 'experiment':
+        # the helper's run length has to be the time of the latest event, however the events are listed
+        latest = max(t for t, _ in events)
+        V.check('trajectory', run_override is None or run_override == latest,
+                lambda: ('the experiment helper runs for %r, the latest event is at %r' % (run_override, latest), events))
+        exp = model(events, ts, float(latest), driven)
+    else:
+        exp = model(events, ts, spec.get('runs') or spec['run'], driven)
     stats = {}
     datas = [data]
-    if data is not None and spec.get('again'):
+    if data is not None and spec.get('again') and spec['entry'] != 'experiment':
         # the same process objects in a second engine (a fresh hierarchy): every event fires again, once
         try:
             e2 = Engine(processes=processes, steps=steps, topology=topology, initial_state=copy.deepcopy(init),
